@@ -117,6 +117,28 @@ class PrinterExtractor:
                     return (("enctok", U(e.args[0])),)
                 if isinstance(f, ast.Name) and f.id == "str" and len(e.args) == 1:
                     return (("str", U(e.args[0])),)
+                if isinstance(f, ast.Name) and f.id in ex.mod.functions and not e.keywords:
+                    # module-level helper with a single return expression: inline it with the arguments substituted
+                    h = ex.mod.functions[f.id]
+                    hb = [s for s in h.body if not (isinstance(s, ast.Expr) and isinstance(s.value, ast.Constant)) and not isinstance(s, ast.Pass)]
+                    hp = [a.arg for a in h.args.args]
+                    if len(hb) == 1 and isinstance(hb[0], ast.Return) and len(hp) == len(e.args):
+                        import copy as _copy
+                        sub = dict(zip(hp, e.args))
+
+                        class _Sub(ast.NodeTransformer):
+                            def visit_Name(self, node):
+                                return _copy.deepcopy(sub[node.id]) if node.id in sub else node
+                        body = _Sub().visit(_copy.deepcopy(hb[0].value))
+                        # module constants used as separators
+                        class _Const(ast.NodeTransformer):
+                            def visit_Name(self, node):
+                                vals = ex.mod.assigns.get(node.id, [])
+                                if len(vals) == 1 and isinstance(vals[0], ast.Constant) and isinstance(vals[0].value, str):
+                                    return ast.Constant(vals[0].value)
+                                return node
+                        body = _Const().visit(body)
+                        return sval(ast.fix_missing_locations(body))
                 if isinstance(f, ast.Attribute):
                     if f.attr == "encode" and not e.args:
                         return (("enc", U(f.value)),)
@@ -226,7 +248,7 @@ class PrinterExtractor:
             for s in stmts:
                 if isinstance(s, ast.Expr) and isinstance(s.value, ast.Constant):
                     continue
-                if isinstance(s, ast.Assert):
+                if isinstance(s, (ast.Assert, ast.Pass)):
                     continue
                 if isinstance(s, ast.Assign) and len(s.targets) == 1 and isinstance(s.targets[0], ast.Name):
                     env[s.targets[0].id] = sval(s.value)
